@@ -135,3 +135,22 @@ props["C10"]["manifest"] = {
     "note": "Level `other`: the kernel-checked part does not carry the property; the search explores, it does not prove. Trusted: harness, catch_unwind catching every panic (stack overflow and allocation failure abort the process and are reported as harness crashes).",
     "technique": "Lean theorems on modelled failure sites + failing-input search (token soups, grammar-directed ill-formed terms, corpus token mutations, arbitrary strings) with panic/hang/location oracles",
 }
+
+props["C16"] = {
+    "harness": "c16",
+    "level": "other",
+    "needs_cli": True,
+    "nontrivial": r"^# c16_(check|run|zir|zasm|asm|llvm|fmt-check)_",
+    "extra_eval_counters": ["processes"],
+    "timeout": {"quick": 1500, "thorough": 7200},
+    "rule": "the zydeco binary is rebuilt from the current tree; a seeded stride through the repository's sources (36 quick / 240 thorough files, accepted and rejected) plus six synthetic programs built to provoke hash-order effects (several coverage errors, duplicate binders inside one pattern, many unsolved holes, several unbound names, a three-way recursive type group, independent definitions with scrambled names) are each run through check, run, fmt --check and build --target zir|zasm|asm|llvm in 6 (quick) / 12 (thorough) fresh processes; exit status, stdout and stderr must be byte-identical. Each (command, file) pair is one case; evaluations also counts the processes.",
+    "explanation": "Kernel-checked: the discipline that makes an emitter independent of hash iteration order (sorting by an injective key gives one sequence for every permutation, hence one emitted text) and the scheduler-independence of block elaboration order (C08). The property's main content - no hash order, address or scheduling leaks into any output of the real tool - lives in the running processes; the decisive evidence is the repetition of fresh processes. One such leak on the pinned tree (Stack IR builtin table) was repaired by a fix: commit.",
+    "trusted_base": [KERNEL, AXIOMS, HARNESS,
+                     "NOT modelled: process-level sources of nondeterminism other than hash order (addresses, time, thread scheduling); only the repetition can show them"],
+    "assumptions": ["fresh processes get fresh SipHash keys and ASLR (std RandomState; kernel default)"],
+}
+props["C16"]["manifest"] = {
+    "text": "Partial by nature: theorems cover order-independence of sorted emission and of block elaboration; byte-identity of the real tool's output across fresh processes is explored by repetition (7 commands x files x processes) with replay of any differing pair. The hash-order leak found on the pinned tree (zir/asm declaration order) was fixed.",
+    "note": "Level `other`: the kernel-checked part does not carry the property. Trusted: the harness; process repetition explores, it does not prove.",
+    "technique": "Lean theorems on sorted emission and scheduler-independent ordering + N-process byte comparison of every CLI command",
+}
